@@ -207,6 +207,19 @@ static void work_d(long lo, long hi, struct res *r, void *arg) {
         if (run_case(&k, r, 0) == 0 && r->nsample < 1 && bd == 1000 && f == 21) res_sample(r, "birthday=%u features=%u mask=%u lang=%s", bd, f, m, RL[li].code);
     }
 }
+/* part f (thorough): all 2048 x 2048 value pairs of adjacent data words (p, p+1), p = 1..14: covers every
+ * carry of the 10+1-bit packing across byte boundaries completely; languages rotate with p */
+static void work_f(long lo, long hi, struct res *r, void *arg) {
+    (void)arg;
+    for (long x = lo; x < hi; x++) {
+        if ((x & 255) == 0 && past_deadline()) { r->timed_out = 1; return; }
+        unsigned b = (unsigned)(x % 2048), a = (unsigned)((x / 2048) % 2048); int p = 1 + (int)(x / (2048L * 2048));
+        unsigned c[16] = {0}; c[p] = a; c[p + 1] = b;
+        struct kase k; k.li = (p * 3) % R_NLANG; k.mask = 7; k.coin = 0;
+        ref_from_coeffs(c, &k.r);
+        if (run_case(&k, r, 0) == 0 && r->nsample < 1 && a == 1365 && b == 682) res_sample(r, "adjacent words %d,%d = (%u,%u) lang=%s", p + 1, p + 2, a, b, RL[k.li].code);
+    }
+}
 /* part e: seeds that come out of polyseed_create and polyseed_crypt instead of load */
 static void work_e(long lo, long hi, struct res *r, void *arg) {
     (void)arg;
@@ -258,6 +271,7 @@ int main(int argc, char **argv) {
     out_part("d:birthdays-x-features-x-masks", r, CLS, "1024 x supported feature values x 8 masks x 10 languages");
     memset(r, 0, sizeof *r); par_run(G_thorough ? 200000 : 20000, work_e, NULL, r);
     out_part("e:created-and-crypted-seeds", r, CLS, "seeds obtained through create/crypt with PRNG tapes (additional, not a decision factor)");
+    if (G_thorough) { memset(r, 0, sizeof *r); par_run(14L * 2048 * 2048, work_f, NULL, r); out_part("f:all value pairs of adjacent data words", r, CLS, "14 word pairs x 2048 x 2048, languages rotating with the position"); }
     out_kv_int("backgrounds", NBG);
     out_end();
     return 0;
